@@ -136,6 +136,17 @@ pub fn realise_mesh(s: &MeshSeed, table: &[(u8, u8)], canonical: bool) -> MeshSp
         elements[i] = Element { stream: st as u8, offset: off as u8, ty: t, usage: u, usage_index: 0 };
         extent[st] = off + type_size(t);
     }
+    // every fifth mesh with a four-component UV element also declares a second, two-component UV element with
+    // usage index 1 behind it (the layout of newer models)
+    if !canonical && s.seed % 5 == 0 {
+        if let Some(first) = elements.iter().find(|e| e.usage == U_UV && type_size(e.ty) > 4).cloned() {
+            let st = first.stream as usize;
+            if extent[st] + 4 <= 255 && pairs_for(U_UV, table).contains(&T_HALF2) {
+                elements.push(Element { stream: st as u8, offset: extent[st] as u8, ty: T_HALF2, usage: U_UV, usage_index: 1 });
+                extent[st] += 4;
+            }
+        }
+    }
     let mut strides = [0u8; 3];
     let mut streams: [Vec<u8>; 3] = [vec![], vec![], vec![]];
     for st in 0..stream_count as usize {
@@ -282,7 +293,7 @@ pub fn compare_model(mdl: &MDL, exp: &Expected, spec: &ModelSpec, ctx: Option<&C
                     Some("position")
                 } else if !all(&gv.normal, &ev.normal, feq) {
                     Some("normal")
-                } else if !all(&gv.uv0, &ev.uv0, near) {
+                } else if !ev.uv0_open && !all(&gv.uv0, &ev.uv0, near) {
                     Some("uv0")
                 } else if !all(&gv.uv1, &ev.uv1, near) {
                     Some("uv1")
@@ -474,15 +485,45 @@ pub fn sweep_spec(variant: u8, v6: bool, canonical: bool) -> ModelSpec {
 fn sweep_cases(_: &Ctx) -> Vec<SweepCase> {
     let mut v = vec![];
     for v6 in [false, true] {
-        for variant in 0..3 {
+        for variant in [0u8, 1, 2, 10, 11] {
             v.push(SweepCase { v6, variant });
         }
     }
     v
 }
 
+/// variant 10/11: size boundaries - a LOD whose second mesh starts beyond 65 535 indices / a mesh with 65 535 vertices
+fn boundary_spec(variant: u8, v6: bool) -> ModelSpec {
+    let mut spec = sweep_spec(1, v6, false);
+    let mut first = spec.lods[0][0].clone();
+    let vc = first.vertex_count.max(1);
+    if variant == 10 {
+        // 66 000 indices in front of the second mesh (start index 66 000 does not fit 16 bits)
+        let rnd = random_bytes(0xB16, 2 * 66_000);
+        first.indices = (0..66_000).map(|i| u16::from_le_bytes([rnd[2 * i], rnd[2 * i + 1]]) % vc).collect();
+        first.submeshes = vec![(40_000, 1, 0, 0), (26_000, 2, 0, 0)];
+        let mut second = spec.lods[0][0].clone();
+        let rnd = random_bytes(0xB17, 2 * 30);
+        second.indices = (0..30).map(|i| u16::from_le_bytes([rnd[2 * i], rnd[2 * i + 1]]) % vc).collect();
+        second.submeshes = vec![(30, 1, 0, 0)];
+        spec.lods[0] = vec![first, second];
+    } else {
+        // the largest vertex count a mesh can declare: one byte-sized stream, so that the offset of the last vertex
+        // (65 534 x stride) is what is exercised
+        first.elements = vec![Element { stream: 0, offset: 0, ty: T_BYTEFLOAT4, usage: U_COLOR, usage_index: 0 }, Element { stream: 1, offset: 0, ty: T_HALF4, usage: U_POSITION, usage_index: 0 }];
+        first.strides = [4, 8, 0];
+        first.stream_count = 2;
+        first.vertex_count = 65_535;
+        first.streams = [random_bytes(0xB18, 4 * 65_535), random_bytes(0xB19, 8 * 65_535), vec![]];
+        first.indices = vec![0, 65_534, 32_768, 1, 65_533, 2];
+        first.submeshes = vec![(6, 1, 0, 0)];
+        spec.lods[0] = vec![first];
+    }
+    spec
+}
+
 fn prop_sweep(c: &SweepCase, ctx: &Ctx) -> PResult {
-    let spec = sweep_spec(c.variant, c.v6, false);
+    let spec = if c.variant >= 10 { boundary_spec(c.variant, c.v6) } else { sweep_spec(c.variant, c.v6, false) };
     let built = encode(&spec);
     let mdl = match guard("MDL::from_existing", || MDL::from_existing(&built.bytes))? {
         Some(m) => m,
@@ -498,7 +539,7 @@ fn prop_sweep(c: &SweepCase, ctx: &Ctx) -> PResult {
 pub fn property() -> Property {
     Property {
         id: "C06",
-        rule: "Models built by the harness's MDL encoder: version 5 | 6 (bone tables and bone-map size field per version), 1..3 LODs x 1..3 meshes, per mesh a declaration of 1..8 elements with unique usages drawn from the 17 (usage, type) pairs the reader supports, spread over 1..3 streams with gaps between elements, tail gaps in the stride and gaps between streams / sections; 0..40 vertices of random bytes (so NaN/inf/subnormal half patterns and all byte values occur), 0..120 indices, 1..3 contiguous sub-meshes; material / bone / attribute / extra names in the string table; 0..3 shapes with shape meshes and values; element ids, bone map, padding, bounding boxes. Sweep part: dedicated models carrying all 65 536 half patterns in each Half4/Half2 role and all 256 byte values in each normalised-byte role (both versions). Oracle: independent decode of the generated stream bytes (own half decoder, b/255, b*2/255-1 with the w sign rule, uv0/uv1 split, defaults for absent attributes); floats by bit pattern (NaN=NaN), normalised bytes within 1e-6; indices, sub-mesh (count, offset), raw vertex streams, strides, material index, material and bone names, names of the shapes affecting each mesh. Non-trivial: a mesh with >= 2 streams or >= 4 elements and >= 1 vertex; distinct by hash of the file.",
+        rule: "Models built by the harness's MDL encoder: version 5 | 6 (bone tables and bone-map size field per version), 1..3 LODs x 1..3 meshes, per mesh a declaration of 1..8 elements with unique usages drawn from the 17 (usage, type) pairs the reader supports, spread over 1..3 streams with gaps between elements, tail gaps in the stride and gaps between streams / sections; 0..40 vertices of random bytes (so NaN/inf/subnormal half patterns and all byte values occur), 0..120 indices, 1..3 contiguous sub-meshes; material / bone / attribute / extra names in the string table; 0..3 shapes with shape meshes and values; element ids, bone map, padding, bounding boxes. Every fifth mesh with a four-component UV element also declares a two-component UV element with usage index 1 behind it (its own first pair is then not asserted, the second pair of the first element still is). Sweep part: dedicated models carrying all 65 536 half patterns in each Half4/Half2 role and all 256 byte values in each normalised-byte role (both versions), plus two size boundaries: a mesh that starts 66 000 indices into its LOD's index buffer, and a mesh of 65 535 vertices. Oracle: independent decode of the generated stream bytes (own half decoder, b/255, b*2/255-1 with the w sign rule, uv0/uv1 split, defaults for absent attributes); floats by bit pattern (NaN=NaN), normalised bytes within 1e-6; indices, sub-mesh (count, offset), raw vertex streams, strides, material index, material and bone names, names of the shapes affecting each mesh. Non-trivial: a mesh with >= 2 streams or >= 4 elements and >= 1 vertex; distinct by hash of the file.",
         assumptions: &["values of (BlendWeights, Byte4|UShort4) and (BlendIndices, UShort4) and morph deltas are not compared (reader marks them provisional)", "shape values are only attached to meshes whose start index is 0 (the reader indexes the mesh-local index list with the LOD-relative base index)", "flags1/flags2 bytes carry a single bit (the reader models them as enums)"],
         pre: None,
         post: None,
